@@ -150,6 +150,15 @@ def run(ctx):
     # D2
     sf = prog.method("types::model::Model", None, "sunlit_fraction")
     check_exits(ctx, prog, sf)
+    # support: an obstacle counts whenever its box and then its polygon are hit (no further condition between the two tests)
+    from .. import support as S
+    r_ = S.occluder_polygon_test_unconditional(prog)
+    ctx.require(r_ is not None, "Occluder::intersects: box test followed by polygon test not found")
+    if r_[0]:
+        ctx.violation("c12.occluders", "c12.occluders|polygon-test", "an obstacle whose bounding box the ray hits is ignored unless %s: windows whose sample points lie inside the "
+                      "box of an oblique or tilted obstacle are counted as sunlit (factor too high, adding the obstacle changes nothing)" % " and ".join(r_[0]), r_[1])
+    else:
+        ctx.ok("c12.occluders", "c12.occluders|polygon-test", "an obstacle is tested by its polygon whenever its box is hit", r_[1])
     # D3 occluder predicates
     co = prog.method("types::model::Model", None, "collect_occluders")
     csc = Scope(prog, co)
